@@ -311,6 +311,11 @@ def run(rep):
     rep.rule('F10', 'getObjectSpecification: both twins answer with the '
              'object\'s own specification, else implementedBy of the class the '
              'object reports (ob.__class__), else the empty declaration', floor=2)
+    rep.rule('F11', 'descriptor slots: a tp_descr_get function receives NULL for '
+             'a missing/None owner (and for a missing instance); the Python twin '
+             'fails with TypeError there, so no path may hand the owner to a callee '
+             'without having established it non-NULL (a NULL owner otherwise '
+             'crashes the interpreter where the reference raises)', floor=2)
     rep.decline('equality of results, exception points and subsequent '
                 'behaviour for arbitrary API programs (that is differential '
                 'execution; only the structural core is decided)')
@@ -447,6 +452,7 @@ def run(rep):
 
     from . import csem as _csem
     _csem.object_specification_twins(rep, 'F10', u, repo.module('declarations.py'))
+    _csem.descr_get_owner(rep, 'F11', u)
 
     # ---- F6 / F7 -------------------------------------------------------------------
     from . import C12 as c12
